@@ -194,6 +194,8 @@ def run(ctx: core.Ctx):
                     except Exception as e:  # noqa: BLE001
                         ctx.fail(prog, dict(x=f"{n} x {v}", dtype=dt), repr(e)[:120], dict(interpreted=str(np.asarray(ri).ravel()[:4].tolist())),
                                  note="the compiled kernel raises where its source, run by the interpreter, returns")
+    from .. import strided
+    strided.probe(ctx, "the compiled kernel reads its arguments through their strides, as the source executed by the interpreter does: same result for a non-contiguous view and its contiguous copy")
     N = ctx.budget(6, 40)
     for _ in range(N):
         n = rng.choice([5, 8, 12, 24, 36])
